@@ -692,6 +692,20 @@ P("loc_list_single_partition_binop", lambda t: t.df.loc[[8, 9]].u + t.df.loc[[8,
 P("loc_scalar_row_minus", lambda t: t.df.loc[7:7].u - 1, needs_known=True, needs_range=True)
 
 
+# nested fused groups: a scalar chain on a reduction broadcast into an elementwise op; inputs shared by inner and outer group
+for _c in (3, 5, 11):
+    P(f"nested_fuse_y_plus_s{_c}", lambda t, c=_c: t.df.f + ((t.df.u.sum() * 2) - c) * 3)
+    P(f"nested_fuse_s{_c}_plus_y", lambda t, c=_c: ((t.df.u.sum() * 2) - c) * 3 + t.df.f)
+    P(f"nested_fuse_two_scalars{_c}", lambda t, c=_c: (t.df.f - ((t.df.u.sum() * 2) - c) * 3) / (((t.df.u.max() - c) * 2 + 1) * 5))
+P("nested_fuse_other_frame_scalar", lambda t: t.df.u + ((t.df2.w.sum() + 1) * 2 + t.df2.u.max()))
+# hash join with the key in the index on one side and in a column on the other (each side is shuffled by ITS key)
+P("merge_hash_left_index_right_on", lambda t: t.df[["u", "f"]].set_index("u").merge(t.df2[["u", "w"]], left_index=True, right_on="u", how="inner", broadcast=False) if t.lazy else t.df[["u", "f"]].set_index("u").merge(t.df2[["u", "w"]], left_index=True, right_on="u", how="inner"), order_free=True, index_free=True, tags={"sort"})
+P("merge_hash_left_on_right_index", lambda t: t.df[["u", "f"]].merge(t.df2[["u", "w"]].set_index("u"), left_on="u", right_index=True, how="inner", broadcast=False) if t.lazy else t.df[["u", "f"]].merge(t.df2[["u", "w"]].set_index("u"), left_on="u", right_index=True, how="inner"), order_free=True, index_free=True, tags={"sort"})
+# delayed source with a reordered / gapped partition selection
+P("delayed_source_reordered_selection", lambda t: t.dd.from_delayed(t.df.to_delayed(), meta=t.df._meta).partitions[[2, 0]] if t.lazy else t.df, dask_only=True, only={"C01", "C05", "C06", "C07", "C09", "C14"})
+P("delayed_source_gapped_selection_sum", lambda t: t.dd.from_delayed(t.df.to_delayed(), meta=t.df._meta).partitions[[0, 2]].u.sum() if t.lazy else t.df.u.sum(), dask_only=True)
+
+
 def program_names(tags_exclude=()):
     return [n for n, p in PROGRAMS.items() if not (p.tags & set(tags_exclude))]
 
